@@ -88,7 +88,9 @@ def _state(d):
 
 
 def _diagnose(d, net, kwargs, report_style, warnings_only):
+    import copy
     from pv.probe import snapshot
+    net = copy.deepcopy(net)   # every call sees the original network, also after a call that failed to restore it
     snap = snapshot.snapshot(net)
     try:
         res = d.diagnose_network(net, report_style=report_style, warnings_only=warnings_only, **kwargs)
